@@ -375,7 +375,10 @@ impl UserRx {
         let mut remaining_rx_window = {
             let mut g = self.shared.locked.lock();
             let remaining_window = g.queue.window();
-            if remaining_window.saturating_sub(filled_front_bytes) < self.max_incoming_payload.get()
+            // Mirrors rx_window(): everything stored in the out-of-order queue (not only its
+            // in-order front) is subtracted from what we advertise.
+            if remaining_window.saturating_sub(self.ooq.stored_bytes().max(filled_front_bytes))
+                < self.max_incoming_payload.get()
             {
                 update_optional_waker(&mut g.dispatcher_waker, cx);
             }
